@@ -261,9 +261,11 @@ func (p *BaseProcess) receiveOnInPorts() (ips map[string]*FileIP, inPortsOpen bo
 		Debug.Printf("[Process %s]: Receieving on inPort (%s) ...", p.name, inpName)
 		ip, open := <-inPort.Chan
 		if !open {
+			vhook("ct.recv", "proc", p.name, "port", inpName, "closed", true)
 			inPortsOpen = false
 			continue
 		}
+		vhook("ct.recv", "proc", p.name, "port", inpName, "path", ip.Path())
 		Debug.Printf("[Process %s]: Got ip (%s) ...", p.name, ip.Path())
 		ips[inpName] = ip
 	}
@@ -277,9 +279,11 @@ func (p *BaseProcess) receiveOnInParamPorts() (params map[string]string, paramPo
 	for pname, pport := range p.InParamPorts() {
 		pval, open := <-pport.Chan
 		if !open {
+			vhook("ct.recvp", "proc", p.name, "port", pname, "closed", true)
 			paramPortsOpen = false
 			continue
 		}
+		vhook("ct.recvp", "proc", p.name, "port", pname, "val", pval)
 		Debug.Printf("[Process %s]: Got param %s ...", p.name, pval)
 		params[pname] = pval
 	}
